@@ -117,7 +117,8 @@ def run_model(module: str, cfg: str = None, workdir: str = None, workers=16, dum
     args += list(extra) + [os.path.join(SPEC, module + ".tla")]
     rc, out, wall = _java(args, cwd=SPEC, timeout=timeout, heap=heap, env=env)
     shutil.rmtree(meta, ignore_errors=True)
-    m = _STATS.findall(out)
+    m = _STATS.findall(out) or re.findall(r"(\d[\d,]*) states generated, (\d[\d,]*) distinct states found, (\d[\d,]*) states left on queue", out)
+    m = [tuple(x.replace(",", "") for x in t) for t in m]
     d = _DEPTH.search(out)
     res = {"rc": rc, "wall_s": wall, "out": out,
            "generated": int(m[-1][0]) if m else 0, "distinct": int(m[-1][1]) if m else 0,
